@@ -4,17 +4,23 @@ run the property's quick check against it (apply to /repo, check, undo) and writ
 import json, os, re, shutil, subprocess, sys
 
 ID, k, name = sys.argv[1], sys.argv[2], sys.argv[3]
-extra_props = sys.argv[4:]           # more properties whose checks should also be tried
+extra_props = [a for a in sys.argv[4:] if not a.startswith('--')]           # more properties whose checks should also be tried
 src = '/tmp/wt/out/%s/%s' % (ID, k)
 dst = '/verif/seeded/%s-%s-%s' % (ID, k, name)
 os.makedirs(dst, exist_ok=True)
 for f in ('patch.diff', 'demo.sh', 'demo.patch', 'demo_cmd.txt', 'notes.md'):
     p = os.path.join(src, f)
-    if os.path.exists(p):
+    if os.path.exists(p) and not (old_meta and '--recheck' in sys.argv):
         shutil.copy(p, os.path.join(dst, f))
-for f in os.listdir(src):
+for f in (os.listdir(src) if os.path.isdir(src) and '--recheck' not in sys.argv else []):
     if f.endswith('.rs'):
         shutil.copy(os.path.join(src, f), os.path.join(dst, f))
+old_meta = {}
+if os.path.exists(os.path.join(dst, 'meta.json')):
+    try:
+        old_meta = json.load(open(os.path.join(dst, 'meta.json')))
+    except Exception:
+        old_meta = {}
 conf = {}
 for f in ('confirm.txt', 'confirm2.txt'):
     p = os.path.join(src, f)
@@ -36,7 +42,7 @@ meta = {
     'property': ID,
     'origin': 'independent sub-agent given only the property text and a scratch worktree (/tmp/wt/%s); nothing from /verif' % ID,
     'needs_to_manifest': '(see notes.md)',
-    'confirmed_by_me': conf,
+    'confirmed_by_me': conf or old_meta.get('confirmed_by_me', {}),
     'confirmation_procedure': 'tools: /tmp/wt/confirm.sh (build; demo on unchanged and changed binary) and /tmp/wt/confirm2.sh (pinned baseline suite via tools/suite.sh on the unchanged and the changed worktree; failing sets compared)',
     'checks_against_it': results,
     'detected': any(v['exit'] == 1 for v in results.values()),
